@@ -46,13 +46,17 @@ ASSUMPTIONS = [
 GRIDS = ["linear", "log", "irregular"]
 ACCURACIES = ["low", "med", "high", "xhigh"]
 SIG2D = ["zero", "tiny", "par>perp", "perp>par", "wide", "beyond-q", "edge-at-origin", "par-only", "perp-only",
-         "mixed"]
+         "mixed", "shared-iso"]
 BOUNDS = {
     "quick": {"n": [1, 2, 3, 10, 100], "first_q": "1e-4, 1e-2 (x seed factor)", "span": H.SPAN,
               "grids": GRIDS, "pinhole_sigma": H.PINHOLE_WIDTHS, "slit_shapes": H.SLIT_SHAPES,
               "slit_magnitudes": H.SLIT_MAGS, "slit_vector": ["scalar", "per-point"],
               "q_calc": ["default", "user"], "accuracy": ACCURACIES, "sigma2d": SIG2D,
               "models": ["sphere", "cylinder"],
+              "reuse": "every object: inputs / data object / theory array compared bit for bit with copies after construction "
+                       "and after apply(); apply() twice; second construction from the same inputs (1-D: n <= 30 or log "
+                       "grid with default q_calc); Pinhole2D with index=None and a boolean index, and with dx and dy one "
+                       "array object; DirectModel twice from one data object; data set B created between A and its use",
               "storage_order": "descending / rotated (cyclic shift n//3) / interleaved (two banks) against ascending, span 200: "
                                "pinhole and slit families with n in (2, 3, 10) (user q_calc for n = 10), every 2-D pixel list, "
                                "every DirectModel data kind"},
@@ -117,6 +121,7 @@ def cases(ctx):
         for acc in ACCURACIES:
             for sig in SIG2D:
                 out.append({"kind": "p2d", "acc": acc, "sig": sig, "q0": q0 * 10})
+                out.append({"kind": "p2d", "acc": acc, "sig": sig, "q0": q0 * 10, "index": "bool"})
                 for order in H.ORDERS[1:]:
                     out.append({"kind": "p2d", "acc": acc, "sig": sig, "q0": q0 * 10, "order": order})
     for what in ("perfect", "pinhole", "pinhole-mixed", "slit-length", "slit-both", "slit-width", "slit-zero"):
@@ -132,6 +137,12 @@ def cases(ctx):
                 for order in H.ORDERS[1:]:
                     out.append({"kind": "datamixin", "what": what, "select": sel, "q0": q0 * 10, "order": order,
                                 "span": H.ORDER_SPAN})
+    # interleaved construction of two data sets with different resolution (module / default-argument state)
+    for dim in ("1d", "2d"):
+        for ra in (0.0, 0.05, 0.2):
+            for rb in (0.0, 0.05, 0.2):
+                if ra != rb:
+                    out.append({"kind": "interleave", "dim": dim, "res_a": ra, "res_b": rb, "q0": _q0s(ctx)[1]})
     return out
 
 
@@ -284,6 +295,66 @@ def _fmt(v):
     return "array([%r, %r, ..., %r] n=%d)" % (float(v[0]), float(v[1]), float(v[-1]), len(v))
 
 
+def _reuse(r, fk, desc, make, inputs, before, res, theory_of, second=True):
+    """
+    "inputs are not modified" and "second use" for one resolution object `res` = make() built from `inputs`
+    (a dict of the very arrays handed to the constructor, or the data object), `before` = H.snapshot(inputs) taken
+    before the first construction:
+      * after construction and after every apply(), every array / attribute reachable from the inputs and the theory
+        array handed to apply() are bit-identical to their copies;
+      * apply() twice on the SAME theory array gives bit-identical results;
+      * make() a second time from the SAME inputs gives bit-identical q_calc, weights and results.
+    """
+    J = Judge(r, fk, desc)
+
+    def inputs_ok(stage):
+        names = H.changed(before, inputs)
+        if names:
+            J.bad("inputs-modified", "%s changed the caller's %s (%s)"
+                  % (stage, ", ".join(names[:4]), "; ".join(H.describe_change(before, inputs, k) for k in names[:2])),
+                  stage=stage.split()[0], what=names[0].split(".")[-1].split("[")[0])
+    inputs_ok("construction")
+    qc = res.q_calc
+    th = np.ascontiguousarray(theory_of(qc), float)
+    th0 = th.copy()
+    with np.errstate(all="ignore"):
+        o1 = np.array(res.apply(th), float)
+        if not np.array_equal(th, th0):
+            k = int(np.argmax(th != th0))
+            J.bad("inputs-modified", "apply() changed the theory array it was given: element %d was %r, is %r"
+                  % (k, th0.ravel()[k], th.ravel()[k]), stage="apply", what="theory")
+            th = th0.copy()
+        inputs_ok("apply()")
+        o2 = np.array(res.apply(th), float)
+    if o1.shape != o2.shape or not np.array_equal(o1, o2, equal_nan=True):
+        k = int(np.argmax(o1 != o2)) if o1.shape == o2.shape else 0
+        J.bad("second-use", "apply() on the same theory array gives %r the first time and %r the second time (data point %d)"
+              % (o1[k] if o1.shape == o2.shape else o1.shape, o2[k] if o1.shape == o2.shape else o2.shape, k), what="apply")
+    branches = ["reuse:apply-twice"]
+    if second:
+        res2 = _construct(r, dict(fk, use="second"), desc + " [second construction from the same inputs]", make)
+        if res2 is not None:
+            a = [np.asarray(v, float) for v in (qc if isinstance(qc, (list, tuple)) else [qc])]
+            b = [np.asarray(v, float) for v in (res2.q_calc if isinstance(res2.q_calc, (list, tuple)) else [res2.q_calc])]
+            w1 = getattr(res, "weight_matrix", getattr(res, "q_calc_weights", None))
+            w2 = getattr(res2, "weight_matrix", getattr(res2, "q_calc_weights", None))
+            if len(a) != len(b) or any(x.shape != y.shape or not np.array_equal(x, y, equal_nan=True) for x, y in zip(a, b)):
+                J.bad("second-use", "a second object built from the same inputs calculates other q values: first %s..., "
+                      "second %s..." % (a[0][:3], b[0][:3]), what="q_calc")
+            elif (w1 is None) != (w2 is None) or (w1 is not None and not np.array_equal(np.asarray(w1), np.asarray(w2), equal_nan=True)):
+                J.bad("second-use", "a second object built from the same inputs has other weights", what="weights")
+            else:
+                with np.errstate(all="ignore"):
+                    o3 = np.array(res2.apply(th0.copy()), float)
+                if o3.shape != o1.shape or not np.array_equal(o1, o3, equal_nan=True):
+                    k = int(np.argmax(o1 != o3)) if o3.shape == o1.shape else 0
+                    J.bad("second-use", "a second object built from the same inputs smears data point %d to %r, the first to %r"
+                          % (k, o3[k] if o3.shape == o1.shape else o3.shape, o1[k]), what="result")
+            inputs_ok("second construction")
+            branches.append("reuse:second-construction")
+    r.ok(nt=True, outcome="reuse:%s" % ("ok" if not J.failed else "FAILED"), trans=3, branches=branches)
+
+
 def _order_of(case, n):
     """(order name or None, permutation, span) of a case; ascending cases keep the historical span"""
     order = case.get("order")
@@ -340,9 +411,14 @@ def run_pinhole(case, ctx, r):
     desc = ("Pinhole1D(q=%s(q0=%r, n=%d%s), q_width=<%s> %s, q_calc=%s)"
             % (case["grid"], case["q0"], n, ", span %g, stored %s" % (span, order) if order else "", case["width"],
                _fmt(sig), "None" if qcalc is None else _fmt(qcalc)))
-    res = _construct(r, fk, desc, lambda: resolution.Pinhole1D(q.copy(), sig.copy(), q_calc=qcalc))
+    inputs = {"q": q.copy(), "q_width": sig.copy(), "q_calc": None if qcalc is None else qcalc.copy()}
+    before = H.snapshot(inputs)
+    make = lambda: resolution.Pinhole1D(inputs["q"], inputs["q_width"], q_calc=inputs["q_calc"])
+    res = _construct(r, fk, desc, make)
     if res is None:
         return
+    _reuse(r, fk, desc, make, inputs, before, res, lambda qc: _theory(qc, case["q0"]),
+           second=n <= 30 or (case["grid"] == "log" and qcalc is None))
     windows = [H.pinhole_window(q[i], sig[i]) for i in range(n)]
     _judge_matrix(r, fk, desc, res, q, sig == 0, windows, np.zeros(n), case["q0"])
     r.branch("pinhole:" + case["width"])
@@ -373,11 +449,16 @@ def run_slit(case, ctx, r):
             % (case["grid"], case["q0"], n, ", span %g, stored %s" % (span, order) if order else "", _fmt(L), _fmt(W),
                "None" if qcalc is None else _fmt(qcalc), case["shape"], case["mag"],
                "per-point" if case["per"] else "scalar"))
-    res = _construct(r, fk, desc,
-                     lambda: resolution.Slit1D(q.copy(), q_length=L if np.isscalar(L) else L.copy(),
-                                               q_width=W if np.isscalar(W) else W.copy(), q_calc=qcalc))
+    inputs = {"q": q.copy(), "q_length": L if np.isscalar(L) else L.copy(), "q_width": W if np.isscalar(W) else W.copy(),
+              "q_calc": None if qcalc is None else qcalc.copy()}
+    before = H.snapshot(inputs)
+    make = lambda: resolution.Slit1D(inputs["q"], q_length=inputs["q_length"], q_width=inputs["q_width"],
+                                     q_calc=inputs["q_calc"])
+    res = _construct(r, fk, desc, make)
     if res is None:
         return
+    _reuse(r, fk, desc, make, inputs, before, res, lambda qc: _theory(qc, case["q0"]),
+           second=n <= 30 or (case["grid"] == "log" and qcalc is None))
     # permitted deficit: measure of the window below the first calculated q (only when the window reaches it)
     qc = np.asarray(res.q_calc, float)
     x0 = float(np.min(qc)) if len(qc) and np.all(np.isfinite(qc)) else float("nan")
@@ -432,6 +513,8 @@ def _sig2d(name, qr):
         return 0.1 * qr, z.copy()
     if name == "perp-only":
         return z.copy(), 0.1 * qr
+    if name == "shared-iso":           # one array object serves as dqx_data and as dqy_data
+        return 0.08 * qr, 0.08 * qr
     if name == "mixed":
         a, b = 0.1 * qr, 0.05 * qr
         a[0::2] = 0.0
@@ -462,20 +545,33 @@ def run_p2d(case, ctx, r):
     spar_a, sperp_a = _sig2d(case["sig"], qr_a)
     order, perm, _ = _order_of(case, len(qx_a))
     qx, qy, qr, spar, sperp = qx_a[perm], qy_a[perm], qr_a[perm], spar_a[perm], sperp_a[perm]
-    n = len(qx)
-    fk = {"class": "Pinhole2D", "sigma": case["sig"], "accuracy": case["acc"]}
+    fk = {"class": "Pinhole2D", "sigma": case["sig"], "accuracy": case["acc"], "index": case.get("index", "none")}
     if order:
         fk["order"] = order
-    desc = ("Pinhole2D(Data2D(x=ring(q0=%r and 7*q0; directions %s deg%s), dx=<%s> %s, dy=%s), accuracy=%r)"
+    desc = ("Pinhole2D(Data2D(x=ring(q0=%r and 7*q0; directions %s deg%s), dx=<%s> %s, dy=%s%s), index=%s, accuracy=%r)"
             % (case["q0"], DIRS, "; pixel list stored %s" % order if order else "", case["sig"], _fmt(spar), _fmt(sperp),
-               case["acc"]))
+               " (dx and dy are the same array object)" if case["sig"] == "shared-iso" else "",
+               "None" if case.get("index", "none") == "none" else "<every pixel but each third one>", case["acc"]))
+    # ONE data object, handed to every construction (the caller's arrays, not copies)
+    dx_in = spar.copy()
+    dy_in = dx_in if case["sig"] == "shared-iso" else sperp.copy()
+    data = Data2D(x=qx.copy(), y=qy.copy(), dx=dx_in, dy=dy_in)
+    index = None
+    if case.get("index", "none") == "bool":
+        index = np.arange(len(qx)) % 3 != 1
+        qx, qy, qr, spar, sperp = qx[index], qy[index], qr[index], spar[index], sperp[index]
+        qx_a = qy_a = None                     # (no storage-order variant with an index)
+    n = len(qx)
+    inputs = {"data": data, "index": index}
+    before = H.snapshot(inputs)
 
     def make():
-        data = Data2D(x=qx.copy(), y=qy.copy(), dx=spar.copy(), dy=sperp.copy())
-        return resolution2d.Pinhole2D(data=data, index=None, nsigma=3.0, accuracy=case["acc"])
+        return resolution2d.Pinhole2D(data=data, index=index, nsigma=3.0, accuracy=case["acc"])
     res = _construct(r, fk, desc, make)
     if res is None:
         return
+    _reuse(r, fk, desc, make, inputs, before, res,
+           lambda qc: _theory(np.sqrt(np.asarray(qc[0], float) ** 2 + np.asarray(qc[1], float) ** 2), case["q0"]))
     J = Judge(r, fk, desc)
     cx, cy = [np.asarray(v, float) for v in res.q_calc]
     w = res.q_calc_weights
@@ -692,6 +788,78 @@ DATA_KINDS = ["dx-zero", "dx-positive", "dx-mixed", "dx-positive-on-excluded-onl
               "2d-positive", "2d-mixed", "2d-zero", "2d-none"]
 
 
+def _reuse_direct(r, fk, desc, data, before, model, calc, pars, got):
+    """DirectModel: the data object is left as it was; a second call and a second DirectModel from the SAME data object
+    give bit-identical values"""
+    from sasmodels.direct_model import DirectModel
+    J = Judge(r, fk, desc)
+    names = H.changed(before, data)
+    if names:
+        J.bad("inputs-modified", "DirectModel construction / evaluation changed the caller's data object: %s"
+              % "; ".join(H.describe_change(before, data, k) for k in names[:3]), stage="direct",
+              what=names[0].split(".")[-1].split("[")[0])
+    with warnings.catch_warnings():
+        warnings.simplefilter("ignore")
+        again = np.asarray(calc(**pars), float)
+        second = np.asarray(DirectModel(data, model, cutoff=0.0)(**pars), float)
+    for label, v in (("a second call of the same calculator", again), ("a second DirectModel built from the same data object", second)):
+        if v.shape != got.shape or not np.array_equal(v, got, equal_nan=True):
+            k = int(np.argmax(v != got)) if v.shape == got.shape else 0
+            J.bad("second-use", "%s gives %r at selected point %d, the first gave %r"
+                  % (label, v[k] if v.shape == got.shape else v.shape, k, got[k]), what="direct")
+    names = H.changed(before, data)
+    if names and not J.failed:
+        J.bad("inputs-modified", "the second use changed the caller's data object: %s"
+              % "; ".join(H.describe_change(before, data, k) for k in names[:3]), stage="direct", what=names[0].split(".")[-1])
+    r.ok(nt=True, outcome="reuse-direct", trans=2, branches=["reuse:direct"])
+
+
+def run_interleave(case, ctx, r):
+    """
+    interleaved construction: data set A is created, THEN a data set B with another resolution, THEN A is built and
+    evaluated: it must equal A created and evaluated on its own, and creating B must leave A untouched
+    (empty_data1D / empty_data2D through DirectModel).
+    """
+    from sasmodels.data import empty_data1D, empty_data2D
+    from sasmodels.direct_model import DirectModel
+    model = build.model("sphere")
+    q0, dim = case["q0"], case["dim"]
+    ra, rb = case["res_a"], case["res_b"]
+    fk = {"class": "DirectModel", "what": "interleaved-%s" % dim, "res_a": ra, "res_b": rb}
+    pars = {"radius": 0.35 / q0, "sld": 2.0, "sld_solvent": 5.5, "scale": 1.0, "background": 0.0}
+    if dim == "1d":
+        make_a = lambda: empty_data1D(H.qgrid("log", 12, q0), resolution=ra)
+        make_b = lambda: empty_data1D(H.qgrid("linear", 7, 3 * q0), resolution=rb)
+        desc = "A = empty_data1D(log(q0=%r, n=12), resolution=%r); B = empty_data1D(linear(q0=%r, n=7), resolution=%r); DirectModel(A, sphere)()" % (q0, ra, 3 * q0, rb)
+    else:
+        g = np.linspace(-5 * q0, 5 * q0, 5)
+        make_a = lambda: empty_data2D(g, resolution=ra)
+        make_b = lambda: empty_data2D(np.linspace(-9 * q0, 9 * q0, 4), resolution=rb)
+        desc = "A = empty_data2D(linspace(+-%r, 5), resolution=%r); B = empty_data2D(linspace(+-%r, 4), resolution=%r); DirectModel(A, sphere)()" % (5 * q0, ra, 9 * q0, rb)
+    J = Judge(r, fk, desc)
+
+    def evaluate(d):
+        with warnings.catch_warnings():
+            warnings.simplefilter("ignore")
+            with np.errstate(all="ignore"):
+                return np.asarray(DirectModel(d, model, cutoff=0.0)(**pars), float)
+    alone = evaluate(make_a())
+    A = make_a()
+    before = H.snapshot(A)
+    B = make_b()
+    names = H.changed(before, A)
+    if names:
+        J.bad("shared-state", "creating data set B changed data set A: %s"
+              % "; ".join(H.describe_change(before, A, k) for k in names[:3]), what=names[0].split(".")[-1])
+    got = evaluate(A)
+    evaluate(B)
+    if got.shape != alone.shape or not np.array_equal(got, alone, equal_nan=True):
+        k = int(np.nanargmax(np.abs(got - alone))) if got.shape == alone.shape else 0
+        J.bad("shared-state", "A evaluated after B was created gives %r at point %d; A created and evaluated alone gives %r"
+              % (got[k] if got.shape == alone.shape else got.shape, k, alone[k]), what="value")
+    r.ok(nt=ra != rb, n=len(alone), trans=3, outcome="interleaved", branches=["interleaved:" + dim])
+
+
 def run_datamixin(case, ctx, r):
     """
     DirectModel(data, model).resolution is compared with a resolution object constructed directly from the raw
@@ -762,6 +930,7 @@ def run_datamixin(case, ctx, r):
         desc = ("DirectModel(Data1D(x=log(q0=%r, n=14%s), %s%s), sphere).resolution"
                 % (q0, ", span %g, stored %s" % (span, order) if order else "", what,
                    ", mask on ascending points 2,7 and qmin/qmax excluding the end points" if sel == "masked" else ""))
+        before = H.snapshot(data)
         calc = _construct(r, fk, desc, lambda: DirectModel(data, model, cutoff=0.0))
         if calc is None:
             return
@@ -823,6 +992,7 @@ def run_datamixin(case, ctx, r):
                       % (i, qs[i], windows[i][0], windows[i][1], got_name), end="both")
             r.ok(nt=int(np.sum(~zero)), n=len(qs), outcome="datamixin-perfect")
         r.branch("datamixin:" + what)
+        _reuse_direct(r, fk, desc, data, before, model, calc, pars, got)
         if order:
             # storage order: every selected point gets the value it gets in the ascending data set, bit for bit
             qa, keepa = asc[0], asc[1]
@@ -879,6 +1049,7 @@ def run_datamixin(case, ctx, r):
     desc = ("DirectModel(Data2D(rings q0=%r and 7 q0%s, %s%s, accuracy=%r), cylinder).resolution"
             % (q0, ", pixel list stored %s" % order if order else "", what,
                ", mask on points 1,5,13 and qmax excluding the outer ring" if sel == "masked" else "", acc))
+    before = H.snapshot(data)
     calc = _construct(r, fk, desc, lambda: DirectModel(data, model, cutoff=0.0))
     if calc is None:
         return
@@ -921,6 +1092,8 @@ def run_datamixin(case, ctx, r):
                       % (i, sa[i], sb[i], ext[i], need[i]))
     r.ok(nt=int(keep.sum()) if a is not None else 0, n=int(keep.sum()), outcome="datamixin-2d", trans=2)
     r.branch("datamixin:" + what)
+    if not J.failed:
+        _reuse_direct(r, fk, desc, data, before, model, calc, pars, got)
     if order and not J.failed:
         ref2 = _construct(r, dict(fk, order="ascending"), desc + " [original pixel order]",
                           lambda: DirectModel(make_data2(np.arange(n)), model, cutoff=0.0))
@@ -953,6 +1126,8 @@ def run_case(case, ctx):
         run_linear2d(case, ctx, r)
     elif kind == "datamixin":
         run_datamixin(case, ctx, r)
+    elif kind == "interleave":
+        run_interleave(case, ctx, r)
     else:
         raise HarnessError("unknown case kind %r" % kind)
     return r
@@ -973,6 +1148,11 @@ def finish(ctx, report):
     for w in ("perfect", "pinhole", "slit-length", "slit-both"):
         report.require("linear:" + w, 1, "DirectModel linearity")
     report.require("linear:2d-par>perp", 4, "DirectModel 2-D linearity")
+    report.require("reuse:apply-twice", 1000, "apply() twice on the same theory array; inputs compared with their copies")
+    report.require("reuse:second-construction", 1000, "a second object built from the same input arrays / data object")
+    report.require("reuse:direct", 100, "second call / second DirectModel from the same data object")
+    report.require("interleaved:1d", 6, "data set B created between creating and evaluating data set A")
+    report.require("interleaved:2d", 6, "data set B created between creating and evaluating data set A (2-D)")
     for o in H.ORDERS[1:]:
         report.require("order:" + o, 300, "the same data stored in another order (equivariance against ascending storage)")
     for w in DATA_KINDS:
